@@ -756,6 +756,7 @@ def oracle_kernel(ops, impl):
 # scale stream: ref_search_distance3 over element sizes 1e-6 .. 1e8 and needle aspect ratios up to 1e4
 # ---------------------------------------------------------------------------
 SITE_D3 = 'ref_search_distance3:unnormalised-normal-projection'
+D3_REPAIRED = False  # flip together with `tri3FootRepo` in lean/Refine/Model/Search.lean when the repair lands
 
 
 def py_distance2(p0, p1, x):
@@ -787,6 +788,8 @@ def py_distance3(p0, p1, p2, x):
     N = _nrm(p0, p1, p2)
     q = [x[0] - p0[0], x[1] - p0[1], x[2] - p0[2]]
     total = _dot(q, N)
+    if D3_REPAIRED and abs(1.0e20 * _dot(N, N)) > abs(total):
+        total /= _dot(N, N)
     q = [q[0] - N[0] * total, q[1] - N[1] * total, q[2] - N[2] * total]
     xp = [q[0] + p0[0], q[1] + p0[1], q[2] + p0[2]]
     b = [_dot(_nrm(xp, p1, p2), N), _dot(_nrm(p0, xp, p2), N), _dot(_nrm(p0, p1, xp), N)]
